@@ -37,7 +37,23 @@ type Input struct {
 	PK2 int64 `json:"pk2,omitempty"`
 	// DelVia (with PK, without PK2): "" Delete(&T{ID: PK}) | model Model(&T{ID: PK})...Delete(&T{})
 	DelVia string `json:"del_via,omitempty"`
+	// PKAge != 0 (with PK, without PK2): the model value has the composite key (id, age) = (PK,
+	// PKAge) (type TC on the same table): the unit is `id = PK AND age = PKAge`
+	PKAge int64 `json:"pk_age,omitempty"`
 }
+
+// TC: the table ts through a model whose primary key is (id, age)
+type TC struct {
+	ID   int64 `gorm:"primaryKey;autoIncrement:false"`
+	Age  int64 `gorm:"primaryKey;autoIncrement:false"`
+	Name string
+	Nick *string
+	Mark int64
+}
+
+func (TC) TableName() string { return "ts" }
+
+const pkAgeAtom = 21
 
 const pkAtom = 20
 
@@ -52,7 +68,12 @@ func (in Input) full() Input {
 		pk = whr.Atom{ID: pkAtom, Col: "id", Op: "in", IL: []int64{in.PK, in.PK2}}
 	}
 	out.Atoms = append(append([]whr.Atom{}, in.Atoms...), pk)
-	out.Chain = append(append([]whr.Call{}, in.Chain...), whr.Call{Kind: "where", Unit: whr.Unit{Form: "map", Members: []int{pkAtom}}})
+	members := []int{pkAtom}
+	if in.PKAge != 0 && in.PK2 == 0 {
+		out.Atoms = append(out.Atoms, whr.Atom{ID: pkAgeAtom, Col: "age", Op: "eq", I: in.PKAge})
+		members = []int{pkAgeAtom, pkAtom} // (map members are rendered in column-name order)
+	}
+	out.Chain = append(append([]whr.Call{}, in.Chain...), whr.Call{Kind: "where", Unit: whr.Unit{Form: "map", Members: members}})
 	return out
 }
 
@@ -293,20 +314,30 @@ func (e *env) run(orig Input) Obs {
 		for _, explicit := range []bool{false, true} {
 			for _, k := range []string{"first", "take", "last", "find"} {
 				dst := whr.T{ID: orig.PK}
+				dstc := TC{ID: orig.PK, Age: orig.PKAge}
+				var dest interface{} = &dst
 				tx, inline := build()
-				if explicit {
+				if orig.PKAge != 0 {
+					dest = &dstc
+					if explicit {
+						tx = tx.Model(&TC{})
+					}
+				} else if explicit {
 					tx = tx.Model(&whr.T{})
 				}
 				var res *gorm.DB
 				switch k {
 				case "first":
-					res = tx.First(&dst, inline...)
+					res = tx.First(dest, inline...)
 				case "take":
-					res = tx.Take(&dst, inline...)
+					res = tx.Take(dest, inline...)
 				case "last":
-					res = tx.Last(&dst, inline...)
+					res = tx.Last(dest, inline...)
 				default:
-					res = tx.Find(&dst, inline...)
+					res = tx.Find(dest, inline...)
+				}
+				if orig.PKAge != 0 {
+					dst.ID = dstc.ID
 				}
 				code := map[string]int64{"first": 0, "last": 1, "take": 2, "find": 2}[k]
 				switch {
@@ -326,6 +357,8 @@ func (e *env) run(orig Input) Obs {
 	var modelValue, deleteValue interface{} = &whr.T{ID: orig.PK}, &whr.T{ID: orig.PK}
 	if orig.PK2 != 0 {
 		modelValue, deleteValue = &[]whr.T{{ID: orig.PK}, {ID: orig.PK2}}, &[]whr.T{{ID: orig.PK}, {ID: orig.PK2}}
+	} else if orig.PKAge != 0 {
+		modelValue, deleteValue = &TC{ID: orig.PK, Age: orig.PKAge}, &TC{ID: orig.PK, Age: orig.PKAge}
 	}
 	fail("update", tx.Session(&gorm.Session{AllowGlobalUpdate: true}).Model(modelValue).Update("mark", 1).Error)
 	o.Update = []int64{}
@@ -366,7 +399,11 @@ func (e *env) run(orig Input) Obs {
 	dtx, dinline := chainOn(t)
 	if orig.DelVia == "model" && orig.PK != 0 && orig.PK2 == 0 {
 		// the key comes from the Model value, the deleted value carries none
-		dtx, deleteValue = dtx.Model(&whr.T{ID: orig.PK}), &whr.T{}
+		if orig.PKAge != 0 {
+			dtx, deleteValue = dtx.Model(&TC{ID: orig.PK, Age: orig.PKAge}), &TC{}
+		} else {
+			dtx, deleteValue = dtx.Model(&whr.T{ID: orig.PK}), &whr.T{}
+		}
 	}
 	fail("delete", dtx.Delete(deleteValue, dinline...).Error)
 	var remaining []int64
@@ -595,6 +632,34 @@ func main() {
 			}
 			if in.PK2 == 0 && r.Bool() {
 				in.DelVia = "model"
+			}
+			if in.PK2 == 0 && r.Chance(1, 3) {
+				// composite key: the age of the row named by PK, or another one (never 0: a zero
+				// value is no key part; never a value some `age = a` atom already names)
+				cand := []int64{}
+				for a := int64(1); a <= 6; a++ {
+					clash := false
+					for _, at := range in.Atoms {
+						if at.Col == "age" && at.Op == "eq" && at.I == a {
+							clash = true
+						}
+					}
+					if !clash {
+						cand = append(cand, a)
+					}
+				}
+				for _, row := range in.Rows {
+					if row.ID == in.PK && row.Age != 0 && r.Chance(2, 3) {
+						for _, a := range cand {
+							if a == row.Age {
+								cand = []int64{a}
+							}
+						}
+					}
+				}
+				if len(cand) > 0 {
+					in.PKAge = lib.Pick(r, cand)
+				}
 			}
 		}
 		kind := "main"
